@@ -81,6 +81,9 @@ var templates = []tmpl{
 	{name: "augment-through-an-implicit-case-brings-a-choice", clean: true, files: []string{
 		`module m { ` + hdr("m") + ` container c { choice ch { container x { leaf l { type string; } } } %PAD } }`,
 		`module b { ` + hdr("b") + ` import m { prefix m; } augment /m:c/m:ch/m:x/m:x { choice inner { leaf p { type string; } container q { choice deeper { leaf-list r { type string; } } } } leaf plain { type string; } } }`}},
+	{name: "augment-path-leaves-out-an-explicit-case", augment: true, files: []string{
+		`module m { ` + hdr("m") + ` container top { choice ch { case c1 { container cont { leaf in { type string; } } } case c2 { leaf other { type string; } } } %PAD } rpc r { input { choice how { case by-name { container sel { leaf n { type string; } } } } } } }`,
+		`module b { ` + hdr("b") + ` import m { prefix m; } augment %NOCASE { leaf bad { type string; } } }`}},
 	{name: "augment-of-an-rpc-or-action-itself", augment: true, files: []string{
 		`module m { ` + hdr("m") + ` yang-version 1.1; rpc r { input { leaf i { type string; } } } container c { action a { input { leaf j { type string; } } } %PAD } }`,
 		`module b { ` + hdr("b") + ` import m { prefix m; } augment /m:%OPPATH { leaf y { type string; } } }`}},
@@ -146,6 +149,7 @@ func Run(j *job.Job, s *job.Sink) {
 			txt = strings.ReplaceAll(txt, "%ANY", []string{"ax", "ad"}[r.Intn(2)])
 			txt = strings.ReplaceAll(txt, "%IO", io)
 			txt = strings.ReplaceAll(txt, "%DIGIT", digit)
+			txt = strings.ReplaceAll(txt, "%NOCASE", []string{"/m:top/m:ch/m:cont", "/m:r/m:input/m:how/m:sel", "/m:top/m:ch/m:other", "/m:top/m:ch/m:cont/m:in/.."}[r.Intn(4)])
 			txt = strings.ReplaceAll(txt, "%OPPATH", []string{"r", "c/m:a"}[r.Intn(2)])
 			txt = strings.ReplaceAll(txt, "%GONE", []string{"/m:top/m:box", "/m:top"}[r.Intn(2)])
 			txt = strings.ReplaceAll(txt, "%LEAFY", []string{"lf", "ll", "ax", "ad"}[r.Intn(4)])
@@ -167,7 +171,33 @@ func Run(j *job.Job, s *job.Sink) {
 			files = append(files[:at], append([]map[string]string{newer}, files[at:]...)...)
 			s.Count("late_fault_sets_in_an_older_revision", 1)
 		}
-		cs := map[string]any{"template": t.name, "files": files, "fault_in_older_revision": twoRevs}
+		// One case in four has the augmenting module (a or b) in two revisions: the augment
+		// stands in the older one, a newer revision without it is loaded next to it. What the
+		// older revision says counts all the same. (Not so for deviating modules: goyang
+		// applies the deviations of a module name once, those of its latest revision.)
+		stepOlder := !twoRevs && r.Intn(4) == 0
+		if stepOlder {
+			done := false
+			for _, f := range files {
+				for _, n := range []string{"a", "b"} {
+					head := "module " + n + " { " + hdr(n)
+					if !done && strings.HasPrefix(f["text"], head) {
+						f["text"] = strings.Replace(f["text"], head, head+" revision 2019-01-01;", 1)
+						newer := map[string]string{"name": n + "new.yang", "text": "module " + n + " { " + hdr(n) + " revision 2020-01-01; }"}
+						at := r.Intn(len(files) + 1)
+						files = append(files[:at], append([]map[string]string{newer}, files[at:]...)...)
+						done = true
+					}
+				}
+				if done {
+					break
+				}
+			}
+			if done {
+				s.Count("late_fault_sets_with_the_step_in_an_older_revision", 1)
+			}
+		}
+		cs := map[string]any{"template": t.name, "files": files, "fault_in_older_revision": twoRevs, "step_in_older_revision": stepOlder}
 		s.Current(c, cs)
 		s.Count("late_fault_sets", 1)
 		s.Count("nontrivial", 1)
